@@ -254,6 +254,28 @@ PROPS['C05'] = {
     'technique': 'contract-based deductive verification of the real density2d body (event mapping, target, cumulative cut, density '
                  'order; scatter-loop template, library contracts) + bounded check of the real function for the remaining clauses',
 }
+PROPS['C02'] = {
+    'contracts': ['contracts.mef:GetTransformFxn', 'contracts.mef:FitBeads', 'contracts.transform:ToMef'],
+    'bounded': True,
+    'level': 'other',
+    'timeout_ms': 15000,
+    'explanation': 'Two parts. PROVED (orchestration of the real mef.get_transform_fxn, for every clustering / statistic / selection / '
+                   'fitting function -- they are parameters of the function -- all N, all numbers of values K and populations found, '
+                   '1 or 2 channels): labels reported unchanged (one per event); populations = groups of equal label ordered by '
+                   'non-decreasing distance of their mean to the origin; one statistic per population, k-th statistic = statistic of '
+                   'column c of the k-th population; per channel the fit receives exactly the pairs (statistic_k, value[c][k]) of the '
+                   'positions selected for that channel whose value is known in that channel (others keep their own values; lists '
+                   'paired and of equal length, reported as passed); the transformation is partial(to_mef, curves in channel order, '
+                   'calibrated channels); refusal only when populations found != values given. What to_mef then does (ToMef) and the '
+                   'structural identities of the fit (FitBeads) are the C06/C09 contracts, re-checked here. BOUNDED (statistical, no '
+                   'contract within reach decides them): the default GMM clustering groups events by generating subpopulation, the '
+                   'conversion is within 10 % of the truth, independence of event order / channel count / clustering channels, '
+                   'reproducibility for a fixed seed, selection_std\'s own exclusion rule.',
+    'level_note': 'orchestration proved modulo A-LIB (set/argsort/mean contracts) and determinism of the callables; recovery accuracy, '
+                  'clustering quality and reproducibility are bounded (sampled synthetic bead files).',
+    'technique': 'contract-based deductive verification of the real get_transform_fxn/to_mef/fit bodies (uninterpreted callables, '
+                 'generated-element arrays, NaN-carrying arrays) + bounded check of the end-to-end statistical clauses',
+}
 PROPS['C14'] = {
     'contracts': ['contracts.fcsio:TextSegmentEarlyExits'],
     'bounded': True,
